@@ -52,12 +52,12 @@ class Index(Harness):
           'omitted), an error outside -- never another element; arrays given as literals and as host variables'
     functions = ('lookupandreference.INDEX', 'grammarparser.parser.p_array', 'grammarparser.parser.p_expseq_semicolon',
                  'grammarparser.parser.p_expseq_comma')
-    bounds = 'one-dimensional arrays of 1..3 and two-dimensional arrays up to 3x3 (quick) / 4x4 (thorough) of symbolic integers; ' \
+    bounds = 'one-dimensional arrays of 1..3 and two-dimensional arrays up to 3x3 (quick) / 6x6 (thorough) of symbolic integers; ' \
              'row and column indices any integers in -10..size+10, 0, or omitted'
     outside = ('arrays larger than the bound (8x8 in the statement)', 'INDEX of a 1-D array with two indices', 'area_num')
 
     def cases(self, tier):
-        mx = 3 if tier == 'quick' else 4
+        mx = 3 if tier == 'quick' else 6
         out = []
         for src in ('lit', 'var'):
             for n in range(1, mx + 1):
@@ -86,7 +86,7 @@ class Index(Harness):
             for i, row in enumerate(arr):
                 names = []
                 for j, v in enumerate(row):
-                    n = 'w%s%s' % ('abcd'[i], 'abcd'[j])
+                    n = 'w%s%s' % ('abcdef'[i], 'abcdef'[j])
                     vs[n] = v
                     names.append(n)
                 rows.append(','.join(names))
